@@ -171,7 +171,7 @@ class Ctx:
 def whiten_section(ck, cx):
     from nipy.algorithms.statistics.models.regression import ARModel, WLSModel, GLSModel
     rng = ck.rng("whiten")
-    N = ck.n(60, 500)
+    N = ck.n(60, 300)
     for i in range(N):
         n, p, V = dims(rng, ck, i)
         X = rand_design(rng, n, p)
@@ -305,7 +305,7 @@ def fit_section(ck, cx):
     from nipy.algorithms.statistics.models.regression import OLSModel, ARModel, WLSModel, GLSModel
     from nipy.labs.glm import glm as labs
     rng = ck.rng("fit")
-    N = ck.n(70, 600)
+    N = ck.n(70, 400)
     kalman_ok = 0
     for i in range(N):
         n, p, V = dims(rng, ck, i)
@@ -430,8 +430,14 @@ def fit_section(ck, cx):
             if float(K.dof) != float(d0):
                 ck.fail("engines/labs-kalman-dof", "Kalman dof %r != %r" % (K.dof, d0), rep)
             ks2 = np.atleast_1d(K.s2)
-            if not close(ks2, s0, 1e-4):
-                if close(ks2 * n / (n - p), s0, 1e-4):
+            # the filter starts from a proper prior (variance 1e7), so its sum of squares carries an absolute
+            # error of order |beta|^2 / 1e7: compare with that slack
+            slack = 1e-5 * (1 + float(np.abs(b0).max()) ** 2)
+
+            def kclose(a, b):
+                return bool(np.all(np.abs(np.asarray(a) - np.asarray(b)) <= 1e-4 * (1 + np.abs(b)) + slack))
+            if not kclose(ks2, s0):
+                if kclose(ks2 * n / (n - p), s0):
                     ck.fail("engines/labs-kalman-s2-is-rss-over-n", "labs glm method='kalman' returns s2 = RSS/n (not RSS/(n-p)) with dof = n-p: "
                             "differs from method='ols' by the factor (n-p)/n, e.g. X=%s Y[:,0]=%s" % (X.tolist(), Y[:, 0].tolist()),
                             dict(rep, kalman_s2=ks2.tolist(), ols_s2=np.asarray(s0).tolist()))
@@ -499,7 +505,7 @@ def glm_ar1_section(ck, cx):
     from nipy.algorithms.statistics.models.regression import OLSModel, ARModel
     from nipy.modalities.fmri.glm import GeneralLinearModel
     rng = ck.rng("glm-ar1")
-    N = ck.n(50, 400)
+    N = ck.n(50, 300)
     multi = 0
     for i in range(N):
         n = int(rng.integers(5, 17 if not ck.thorough() else 31))
